@@ -377,7 +377,7 @@ func runCase(seed int64, idx int, pr params) *caseResult {
 						// or a loop spins after the injected fault. That is C18's business ("does not keep a lock held");
 						// for the property in focus the run is inconclusive. The clone is abandoned.
 						res.counts["wedged_after_injected_fault"]++
-						res.inconcl = append(res.inconcl, fmt.Sprintf("operation %s did not return within 30 s after injection %s at call %d (lock held / spinning?)", op, kind, k))
+						res.inconcl = append(res.inconcl, fmt.Sprintf("operation %s did not return within 180 s after injection %s at call %d (lock held / spinning?)", op, kind, k))
 						continue
 					}
 					res.counts["injected_executions"]++
@@ -508,7 +508,7 @@ func execWatched(c *Sim, op Op, plan map[int]world.InjectKind, prov map[int]bool
 	select {
 	case crashed = <-done:
 		return crashed, false
-	case <-time.After(30 * time.Second):
+	case <-time.After(180 * time.Second): // watchdog only
 		return false, true
 	}
 }
